@@ -125,7 +125,10 @@ def check_c02(pid, tier, seed, replay):
         return M.do_replay_machine(ck, replay, classify=classify_c02)
     quick = tier == "quick"
     rng = random.Random(seed)
-    plan = [("opt1", 3, 12), ("opt2", 3, 14), ("io", 2, 10)] if quick else [("opt1", 4, 14), ("opt2", 3, 16), ("io", 3, 12), ("control", 3, 14)]
+    # arithq / arith: every command kind with fractions, negatives and NaN, input-free - level 2 pre-executes
+    # these programs completely, so the optimiser's private copies of the six commands are exercised throughout
+    plan = [("opt1", 3, 12), ("opt2", 3, 14), ("io", 2, 10), ("arithq", 3, 8)] if quick else \
+           [("opt1", 4, 14), ("opt2", 3, 16), ("io", 3, 12), ("control", 3, 14), ("arith", 3, 10)]
     for slice_, ml, steps in plan:
         cases, n = mc_opt(ck, slice_, ml if not (slice_ == "opt1" and not quick) else 3, steps, dump=True)
         # (R) every program of the slice through the real binary at -O0, -O1 and -O2
@@ -180,6 +183,7 @@ def check_c02(pid, tier, seed, replay):
     # completely (or up to its budget), so every jump rule is exercised inside the speculation
     rj = [{"prog": M.retjump_soup(rng, rng.randint(6, 14)), "input": []} for _ in range(80 if quick else 3000)]
     rj += [{"prog": M.fwdjump_family(rng), "input": []} for _ in range(40 if quick else 1000)]
+    rj += [{"prog": M.operand_family(rng), "input": []} for _ in range(80 if quick else 2000)]
     cpath3 = os.path.join(work, "cases_rj.json")
     M.write_cases(cpath3, rj)
     obs = M.run_obs(ck, cpath3, "Trj", levels="0,1,2", bound=500, timeout_ms=600)
